@@ -89,6 +89,12 @@ func (r *reloadHAProxy) When(_ any) time.Duration {
 	defer r.mu.Unlock()
 
 	now := time.Now()
+
+	// a reload is already scheduled, return the remaining time
+	if r.last.After(now) {
+		return r.last.Sub(now)
+	}
+
 	next := r.last.Add(r.interval)
 
 	// not rate limited, allow to reload now
@@ -97,8 +103,9 @@ func (r *reloadHAProxy) When(_ any) time.Duration {
 		return 0
 	}
 
-	// rate limited, return the remaining time to the next reload
-	return time.Until(next)
+	// rate limited, schedule the next reload and return the remaining time
+	r.last = next
+	return next.Sub(now)
 }
 
 func (r *reloadHAProxy) NumRequeues(_ any) int {
